@@ -20,7 +20,7 @@ CHECKS = {
    technique="type-test exhaustiveness with an assumed-kind CFG walk, data-dependence and dominance checks on go/ssa",
    ref="DESIGN.md section 5 C09"),
  "C10": dict(
-   text="What the verifier recomputes and what it trusts, decided structurally: every success arm stores the verified child, sets dirty and recomputes the hash before returning, and VerifyBlockProof returns that recomputed hash; range checks guard every success; and 'navigated-by is a subset of committed-to' is checked per node kind. One known finding: the branch hash binds only the sum of child weights while the verifier navigates by each claimed weight (forgeable, witness recorded).",
+   text="What the verifier recomputes and what it trusts, decided structurally: every success arm stores the verified child, sets dirty and recomputes the hash before returning, and VerifyBlockProof returns that recomputed hash; range checks guard every success; and 'navigated-by is a subset of committed-to' is checked per node kind. Two known findings: the branch hash binds only the sum of child weights while the verifier navigates by each claimed weight (forgeable, witness recorded); node kinds are not domain-separated in the hash pre-image.",
    note="Does not decide absence of other forgeries (a statement over all byte strings).",
    technique="ordering/dominance checks, range-guard facts, pre-image vs decision-input agreement on go/ssa",
    ref="DESIGN.md section 5 C10"),
@@ -55,7 +55,7 @@ CHECKS = {
    technique="type-dispatch exhaustiveness + nil-result summaries, path-sensitive guard facts, non-emptiness discharge table on go/ssa",
    ref="DESIGN.md section 5 C01"),
  "C02": dict(
-   text="What the root hash is computed from and when, decided structurally: the three node kinds hash little-endian origin || exactly the fields they persist (same encode function object for hashing and storing); insertNode stamps the origin before hashing and stores under that hash; branch arms that clear a slot read the child count and value presence (necessary for canonical collapse); no empty-path extension is constructed. One known finding: removing a branch's value never inspects the child count.",
+   text="What the root hash is computed from and when, decided structurally: the three node kinds hash little-endian origin || exactly the fields they persist (same encode function object for hashing and storing); insertNode stamps the origin before hashing and stores under that hash; branch arms that clear a slot read the child count and value presence (necessary for canonical collapse); no empty-path extension is constructed. The defect this rule found (removing a branch's value never inspected the child count) is repaired in /repo (fix: a175b31).",
    note="Does not decide equality with an independent implementation for every content, full history independence, or collision resistance. DEP-canon is a necessary condition only (reads of GetNumChildren/HasValue), not proof of canonical restructuring.",
    technique="sibling skeleton agreement, ordering/dominance checks and must-depend-on reads on go/ssa",
    ref="DESIGN.md section 5 C02"),
